@@ -15,7 +15,9 @@ sys.path.insert(0, HERE)
 from harness import Resource, type_shape  # noqa: E402
 
 SCALARS = [None, True, False, 0, 1, -1, 2 ** 70, -(2 ** 70), 1.0, 0.0, -2.5, 1e300, 5e-324, "", "a", "\u0000\n\t\\\"/",
-           "퟿\U0001f600 ", "é" * 3, " "]
+           "퟿\U0001f600 ", "é" * 3, " ",
+           # unpaired surrogates (what json.loads('"\\ud83d"') and os.fsdecode of a non-UTF-8 name produce): valid str, valid JSON
+           "\ud83d", "caf\udce9", "\udfff\ud800"]
 VALUES = SCALARS + [[], {}, [[]], {"": {}}, {"": ""}, [True, 1, 1.0, None], {"a": [1, {"b": [2, {"c": None}]}]},
                     [{"k": 2 ** 70}, [1.5, "x"]], {"t": True, "o": 1, "f": 1.0}, [[[[1]]]], {"a.b" if False else "ab": 1}]
 
